@@ -29,7 +29,8 @@ theorem locate_inplace (file : List Line) (h : Hunk) (iw : Bool) (maxFuzz : Int)
   · exact C03.locate_insertion_exact file h iw 0 maxFuzz c p hc hg hcp (by omega)
       (fun hh => hex ⟨hc, hh.1, hh.2⟩)
   · exact C03.locate_exact file h iw 0 maxFuzz c p hw hc hg hcp
-      (admissible_of_inplace file h iw maxFuzz p hF (lines_ne_nil_of_count hw hc) hold hfit)
+      (admissible_of_inplace file h iw maxFuzz p hF (lines_ne_nil_of_count hw hc) hold hfit
+        (by have := hw.2.1; omega))
 
 /-- the placements a valid script states, numbered from `num` -/
 def statedFrom (num : Nat) (hs : List Hunk) : List (Nat × Location) :=
